@@ -69,7 +69,7 @@ func c07Rules() *RuleSet {
 			// sqlite backend
 			boolFalse("not-expired", "time.Now().After(stored expiry) is false", named("time.Time.After"), 0,
 				func(m *Matcher, _ ssa.CallInstruction, args []ssa.Value) bool {
-					return m.Prov(args[0]).Has("call:time.Now") && m.Prov(args[1]).HasPrefix("out:fdo/sqlite.")
+					return m.Prov(args[0]).Has("call:time.Now") && m.Prov(args[1]).HasPrefixX("out:fdo/sqlite.")
 				}),
 			errNil("row-read", "the rv_blobs row was read without error", func(n string) bool { return strings.HasPrefix(n, "fdo/sqlite.") && strings.HasSuffix(n, ".query") }, nil),
 		},
@@ -162,15 +162,20 @@ func sqliteExpiryRules(p *Prog, r *Result, rs *RuleSet, prefix string) {
 		}
 	}
 	reader := ""
-	mrv := fs.matcherFor(rv)
-	for _, b := range rv.Blocks {
-		for _, in := range b.Instrs {
-			if call, ok := in.(*ssa.Call); ok {
-				n := p.calleeOf(call.Common()).Name
-				if (n == "time.Unix" || n == "time.UnixMilli" || n == "time.UnixMicro") && mrv.Prov(call.Call.Args[0]).HasPrefix("out:fdo/sqlite.") {
-					reader = n
-					if n == "time.Unix" && !isConstInt(call.Call.Args[1], 0) {
-						reader = "time.Unix(sec, nsec!=0)"
+	for _, rfn := range fs.Order {
+		if funcPkgPath(rfn) != funcPkgPath(rv) {
+			continue
+		}
+		mrv := fs.matcherFor(rfn)
+		for _, b := range rfn.Blocks {
+			for _, in := range b.Instrs {
+				if call, ok := in.(*ssa.Call); ok {
+					n := p.calleeOf(call.Common()).Name
+					if (n == "time.Unix" || n == "time.UnixMilli" || n == "time.UnixMicro") && mrv.Prov(call.Call.Args[0]).HasPrefixX("out:fdo/sqlite.") {
+						reader = n
+						if n == "time.Unix" && !isConstInt(call.Call.Args[1], 0) {
+							reader = "time.Unix(sec, nsec!=0)"
+						}
 					}
 				}
 			}
